@@ -93,16 +93,22 @@ Theorem C04_uniq_no_dup : forall ts fs, NoDup (texts (full_list (build_menu ts (
 Proof. exact uniq_no_dup. Qed.
 Print Assumptions C04_uniq_no_dup.
 
-(** The same claim for a chain that merely *contains* the uniquifier is false
-    of the model: a prefetching filter placed after it (the order used by
-    data/minimal/cangjie5.schema.yaml: uniquifier, single_char_filter) drains
-    the uniquified stream while the menu's cache is still empty. *)
+(** The order of data/minimal/cangjie5.schema.yaml: the uniquifier followed by
+    the prefetching single-char filter.  The prefetch drains the uniquified
+    stream while the menu's cache is still empty; the uniquifier's record of
+    what it has already yielded keeps the list duplicate-free. *)
+Theorem C04_uniq_then_single_char_no_dup : forall ts fs,
+  NoDup (texts (full_list (build_menu ts (fs ++ [FUniquifier; FSingleChar])))).
+Proof. exact uniq_single_no_dup. Qed.
+Print Assumptions C04_uniq_then_single_char_no_dup.
+
+(** The general claim (any chain of the modelled filters that contains the
+    uniquifier) is kept as a statement only: it is proved above for the two
+    orders that occur in the stock schemas ([...; uniquifier] and
+    [...; uniquifier; single_char_filter]); an arbitrary tail of filters after
+    the uniquifier (charset filter after it, several prefetchers) is not proved. *)
 Definition C04_uniq_anywhere_full : Prop :=
   forall ts fs, In FUniquifier fs -> NoDup (texts (full_list (build_menu ts fs))).
-Theorem C04_uniq_anywhere_refuted :
-  exists ts, ~ NoDup (texts (full_list (build_menu ts [FUniquifier; FSingleChar]))).
-Proof. exact uniq_not_last_refuted. Qed.
-Print Assumptions C04_uniq_anywhere_refuted.
 
 (** Non-vacuity: a live, well-formed menu (lazy merge of a distinct+cached
     stream, a second stream and the echo candidate, behind the uniquifier) in
@@ -131,3 +137,10 @@ Theorem C04_example_uniq_last :
   = [([0x4E00%N], 2)].
 Proof. exact uniq_last_example. Qed.
 Print Assumptions C04_example_uniq_last.
+
+(** two table phrases with the same text met during the prefetch: one survives *)
+Theorem C04_example_uniq_then_prefetch :
+  map (fun c => (c_text c, c_comment c, c_uniq c)) (full_list (build_menu dup_witness [FUniquifier; FSingleChar]))
+  = [([0x4E00%N], 1%N, 0)].
+Proof. exact uniq_then_prefetch_example. Qed.
+Print Assumptions C04_example_uniq_then_prefetch.
